@@ -206,6 +206,8 @@ def run_impl_bisect(cases):
 
 def run_model(cases, timeout=3600):
     """Returns (model observations, spec lines)."""
+    # `P` cases (readers opened from a file path) are plain reader histories for the model
+    cases = ['R' + c[1:] if c.startswith('P ') else c for c in cases]
     data = ('\n'.join(cases) + '\n').encode()
     p = subprocess.run([MBIN], input=data, stdout=subprocess.PIPE, stderr=subprocess.PIPE, timeout=timeout)
     if p.returncode != 0:
